@@ -5,6 +5,7 @@ import (
 	"reflect"
 
 	gcmp "github.com/google/go-cmp/cmp"
+	"github.com/google/go-cmp/cmp/cmpopts"
 )
 
 func Pipe[T any, U any](elem T, f func(T) U) U {
@@ -32,8 +33,15 @@ func Printf1[T any](fmtstr string, arg T) {
 	fmt.Printf(fmtstr, arg)
 }
 
+var eqOpts = gcmp.Options{
+	// Record fields may have lower case (unexported) names; compare them too instead of panicking.
+	gcmp.Exporter(func(reflect.Type) bool { return true }),
+	// An empty slice is equal to an empty slice whether it is nil or not.
+	cmpopts.EquateEmpty(),
+}
+
 func OpEqual[T any](e1 T, e2 T) bool {
-	return gcmp.Equal(e1, e2)
+	return gcmp.Equal(e1, e2, eqOpts)
 }
 
 func OpNotEqual[T any](e1 T, e2 T) bool {
